@@ -72,7 +72,8 @@ def oracle(chk, world, r, case):
         if not isinstance(src, list):
             continue
         sps = s.get("elems") or []
-        good = [(x * 7 + cid) % 1000 for x in src if (sps[x % len(sps)] if sps else "v") == "v"]
+        good = [((x * 7 + cid) % 1000 if (sps[x % len(sps)] if sps else "v") == "v" else 0) for x in src
+                if (sps[x % len(sps)] if sps else "v") in ("v", "z")]
         want = ("M" + ";".join(str(v) for v in good)) if good else "ABSENT"
         got = W.canon_val(world, inst[cid]) if cid in inst else "ABSENT"
         if got != want:
